@@ -535,7 +535,14 @@ pub fn gen_units(rng: &mut Rng, maxchars: usize, surrogates: bool) -> Vec<u16> {
             v.push(if rng.chance(1, 2) { 0xD800 + rng.below(0x400) as u16 } else { 0xDC00 + rng.below(0x400) as u16 });
             continue;
         }
-        let c = if rng.chance(1, 8) { rng.below(0x110000) as u32 } else { *rng.pick(CHARS) };
+        let consts = source_constants();
+        let c = if rng.chance(1, 8) {
+            rng.below(0x110000) as u32
+        } else if !consts.is_empty() && rng.chance(1, 6) {
+            *rng.pick(consts)
+        } else {
+            *rng.pick(CHARS)
+        };
         if let Some(ch) = char::from_u32(c) {
             let mut b = [0u16; 2];
             v.extend_from_slice(ch.encode_utf16(&mut b));
@@ -649,6 +656,21 @@ pub fn generate(prop: &str, out: &mut Out, thorough: bool, seed: u64) -> bool {
             p.cuts = gen_cuts(&mut rng, &p);
             p.caps = if prop == "C07" && rng.chance(3, 4) { vec![crate::dec::QUERY_CAP] } else { gen_caps(&mut rng, repl, prop == "C06") };
             emit(out, &p, &props);
+        }
+        // boundary pass: every constant of the source (and its neighbours) between two ASCII characters,
+        // one complete call, alternating source form; with replacement where the property is about it
+        let repl = matches!(prop, "C03" | "C09" | "C12" | "C18" | "C06" | "C08");
+        for (i, &c) in source_constants().iter().enumerate() {
+            if !thorough && e.output_encoding() == encoding_rs::UTF_8 && i % 8 != 0 {
+                continue;
+            }
+            if let Some(ch) = char::from_u32(c) {
+                let text: String = ['a', ch, 'b'].iter().collect();
+                let p = EPlan { enc: e, utf16: i % 2 == 0, repl: repl || i % 3 == 0, units16: text.encode_utf16().collect(), cuts: vec![text.encode_utf16().count().max(if i % 2 == 0 { 0 } else { text.len() })], caps: vec![64] };
+                let mut p = p;
+                p.cuts = vec![p.src_len()];
+                emit(out, &p, &props);
+            }
         }
     }
     true
